@@ -580,8 +580,43 @@ impl Property for C18 {
         obs.label(if c.int { "scalar:i32" } else { "scalar:f64" });
         if c.int {
             run::<i32>(c, obs, &|v| v as i32, "i32");
+            // integer Rects far from the origin (min + max does not fit the type, the width does): two proper halves
+            for op in &c.ops {
+                if let Op::RectNew(a, b) = op {
+                    let sgn: i32 = if a.0 < 0 { -1 } else { 1 };
+                    let big = |v: (i8, i8)| Coord { x: sgn * 1_800_000_000 + v.0 as i32 * 1_000_000, y: sgn * 1_900_000_000 + v.1 as i32 * 1_000_000 };
+                    let r = Rect::new(big(*a), big(*b));
+                    match guard(std::panic::AssertUnwindSafe(|| (r.split_x(), r.split_y()))) {
+                        Ok(([l, rr], [bt, tp])) => {
+                            obs.cmp();
+                            let ok = |q: &Rect<i32>| q.min().x <= q.max().x && q.min().y <= q.max().y;
+                            let inside = |q: &Rect<i32>| q.min().x >= r.min().x && q.max().x <= r.max().x && q.min().y >= r.min().y && q.max().y <= r.max().y;
+                            if !(ok(&l) && ok(&rr) && ok(&bt) && ok(&tp) && inside(&l) && inside(&rr) && inside(&bt) && inside(&tp) && l.max().x == rr.min().x && bt.max().y == tp.min().y) {
+                                obs.fail("i32|Rect::split_x/split_y|halves-far-from-origin".to_string(), format!("{:?} -> {:?} {:?} / {:?} {:?}", r, l, rr, bt, tp));
+                            }
+                        }
+                        Err(p) => obs.fail(format!("i32|Rect::split_x/split_y|panic|{}", p.site()), format!("{} {:?}", p, r)),
+                    }
+                }
+            }
         } else {
             run::<f64>(c, obs, &|v| v as f64 * 0.5, "f64");
+            // far from the origin (the sum min + max would overflow / be infinite, the width does not): still two proper halves
+            for op in &c.ops {
+                if let Op::RectNew(a, b) = op {
+                    let sgn = if a.0 < 0 { -1.0 } else { 1.0 };
+                    let big = |v: (i8, i8)| Coord { x: sgn * 1.0e308 + v.0 as f64 * 1.0e305, y: sgn * 1.2e308 + v.1 as f64 * 1.0e305 };
+                    let r = Rect::new(big(*a), big(*b));
+                    let ([l, rr], [bt, tp]) = (r.split_x(), r.split_y());
+                    obs.cmp();
+                    let ok = |q: &Rect<f64>| q.min().x <= q.max().x && q.min().y <= q.max().y && q.min().x.is_finite() && q.max().y.is_finite();
+                    let inside = |q: &Rect<f64>| q.min().x >= r.min().x && q.max().x <= r.max().x && q.min().y >= r.min().y && q.max().y <= r.max().y;
+                    if !(ok(&l) && ok(&rr) && ok(&bt) && ok(&tp) && inside(&l) && inside(&rr) && inside(&bt) && inside(&tp) && l.max().x == rr.min().x && bt.max().y == tp.min().y) {
+                        obs.fail("f64|Rect::split_x/split_y|halves-far-from-origin".to_string(), format!("{:?} -> {:?} {:?} / {:?} {:?}", r, l, rr, bt, tp));
+                    }
+                    obs.label("rect:split-far-from-origin");
+                }
+            }
             // float only: the halves of a split Rect are Rects (min <= max), share the cut line and cover the original
             for op in &c.ops {
                 if let Op::RectNew(a, b) = op {
